@@ -90,6 +90,28 @@ pub trait SVDDecomposableMatrix<T: RealNumber>: BaseMatrix<T> {
 
         let (m, n) = U.shape();
 
+        // Bring the largest entry close to one. The factor is a power of two, so the
+        // factors are unchanged and the singular values are scaled back exactly at the end.
+        // Without it the rounding residues of a small-scale matrix (single precision:
+        // entries of 1e-11) reach the subnormal range, where 1 / g below overflows.
+        let mut amax = T::zero();
+        for i in 0..m {
+            for j in 0..n {
+                amax = amax.max(U.get(i, j).abs());
+            }
+        }
+        let pow2 = amax
+            .max(T::min_positive_value())
+            .log2()
+            .floor()
+            .to_i32()
+            .map_or(T::one(), |e| T::two().powi(e));
+        for i in 0..m {
+            for j in 0..n {
+                U.div_element_mut(i, j, pow2);
+            }
+        }
+
         let (mut l, mut nm) = (0usize, 0usize);
         let (mut anorm, mut g, mut scale) = (T::zero(), T::zero(), T::zero());
 
@@ -418,6 +440,10 @@ pub trait SVDDecomposableMatrix<T: RealNumber>: BaseMatrix<T> {
                     v.set(j, k, -v.get(j, k));
                 }
             }
+        }
+
+        for w_k in w.iter_mut() {
+            *w_k = *w_k * pow2;
         }
 
         Ok(SVD::new(U, v, w))
